@@ -17,6 +17,29 @@ type sgen struct {
 	objIDs   []string // object ids of the scope being generated (for refs)
 	allowRef bool
 	noObj    bool // inside a single-property object: no object-like property types (inline-cycle hazard is its own family)
+	// multiRules (opt-in; the default streams stay as they are): rule lists (required_if / required_if_not / conflicts) of
+	// 1..3 names in ANY order - the constructors keep the order they are given
+	multiRules bool
+}
+
+// ruleNames: one name of the list, or - under multiRules - up to three distinct names in any order.
+func (g *sgen) ruleNames(others []string) []string {
+	r := g.r
+	if !g.multiRules {
+		return []string{pick(r, others)}
+	}
+	n := 1 + r.Intn(3)
+	if n > len(others) {
+		n = len(others)
+	}
+	pool := append([]string{}, others...)
+	var out []string
+	for i := 0; i < n; i++ {
+		j := r.Intn(len(pool))
+		out = append(out, pool[j])
+		pool = append(pool[:j], pool[j+1:]...)
+	}
+	return out
 }
 
 var propNames = []string{"a", "b", "c", "d", "e", "name", "n", "xs", "m", "opt"}
@@ -209,15 +232,15 @@ func (g *sgen) props(depth, n int, names []string) []propD {
 			p.required = true
 		case 2:
 			if len(others) > 0 {
-				p.requiredIf = []string{pick(r, others)}
+				p.requiredIf = g.ruleNames(others)
 			}
 		case 3:
 			if len(others) > 0 {
-				p.requiredIfNot = []string{pick(r, others)}
+				p.requiredIfNot = g.ruleNames(others)
 			}
 		case 4:
 			if len(others) > 0 {
-				p.conflicts = []string{pick(r, others)}
+				p.conflicts = g.ruleNames(others)
 			}
 		}
 		if r.Chance(15) {
